@@ -223,7 +223,8 @@ def _standin_classes(rep, tier, rng):
 def run(rep, tier, seed):
     from contracts.c10_norms import all_contracts
     cs, table = all_contracts(tier)
-    run_contracts(rep, cs, table, tier=tier, replayers=[(r"_p_norm\..*(preserve|ensures|defined)", _replay_segment)])
+    # generous budgets: the nonlinear segment obligations take seconds each and must not flip to undecided on a loaded machine
+    run_contracts(rep, cs, table, tier=tier, replayers=[(r"_p_norm\..*(preserve|ensures|defined)", _replay_segment)], budget_s=1200, solve_budget_s=60)
     # grid landscapes: sup norm, conversion of values to (node, value) pairs, p-norm entry point
     from contracts.c10_norms import approx_contracts
 
